@@ -35,7 +35,14 @@ fn hex_upper(b: &[u8]) -> String {
 
 /// key files in every documented encoding, with the key they must yield
 pub fn gen_keyfile(rng: &mut Rng) -> (Vec<u8>, Vec<u8>, &'static str) {
-    match rng.below(8) {
+    match rng.below(9) {
+        8 => {
+            // 64 hexadecimal characters and nothing else (what some KeePass ports write as a "hex key
+            // file"): for this property it is "any other file", i.e. hashed; either case or mixed
+            let k = rng.bytes(32);
+            let mut h = match rng.below(3) { 0 => hex_upper(&k), 1 => hex::encode(&k), _ => hex::encode(&k).chars().enumerate().map(|(i, c)| if i % 3 == 0 { c.to_ascii_uppercase() } else { c }).collect() };
+            if !h.bytes().any(|c| c.is_ascii_alphabetic()) { h.replace_range(0..1, "a"); }
+            let d = h.into_bytes(); let kk = oracle::sha256(&d); (d, kk, "hashed-hex-text") }
         0 => { let k = rng.bytes(32); (k.clone(), k, "raw-32-bytes") }
         1 => {
             // any other file is hashed: short ones, and (1 in 4) files of several KiB around buffer sizes
@@ -336,7 +343,18 @@ pub fn edit_creds(rng: &mut Rng, base: &Creds) -> (Creds, &'static str) {
         _ => {
             // one bit flipped in the key material of a raw 32-byte key file
             match (&mut c.keyfile, &mut c.keyfile_key) {
+                (Some(f), Some(kk)) if f.len() == 32 && rng.chance(1, 4) => { let h = if rng.chance(1, 2) { hex_upper(f) } else { hex::encode(&f[..]) }; *f = h.into_bytes(); *kk = oracle::sha256(f); "keyfile-replaced-by-its-hex-text" }
                 (Some(f), Some(kk)) if f.len() == 32 => { let i = rng.below(32) as usize; f[i] ^= 1 << rng.below(8); *kk = f.clone(); "keyfile-bit-flipped" }
+                (Some(f), Some(kk)) if base.kind == "hashed-hex-text" => {
+                    // a key file of hexadecimal text: the case of one letter changed (one bit), or the file
+                    // replaced by the 32 bytes its text spells
+                    if rng.chance(2, 3) {
+                        let letters: Vec<usize> = (0..f.len()).filter(|&i| f[i].is_ascii_alphabetic()).collect();
+                        let i = *rng.pick(&letters); f[i] ^= 0x20; *kk = oracle::sha256(f); "keyfile-letter-case-flipped"
+                    } else {
+                        let d = hex::decode(&f[..]).unwrap_or_default(); *f = d.clone(); *kk = d; "keyfile-hex-text-decoded"
+                    }
+                }
                 (Some(f), Some(kk)) if base.kind == "hashed-arbitrary-bytes" && f.len() > 40 => {
                     // a hashed key file altered near its end: one bit flipped, a byte appended, the last byte dropped
                     let how = match rng.below(3) {
@@ -486,12 +504,26 @@ fn c05(args: &Args, agg: &mut Aggregate) {
         let hl = parts.header().len();
         o.input = format!("(file {} bytes header {} blocks {:?})", file.len(), hl, parts.partition);
         let reference = match Database::open(&mut &file[..], base.creds.key()) { Ok(d) => d, Err(e) => { o.violation = Some(format!("multi-block file does not open: {:?}", e)); return o; } };
+        let reference_xml = match Database::get_xml(&mut &file[..], base.creds.key()) { Ok(x) => x, Err(e) => { o.violation = Some(format!("get_xml fails on the multi-block file: {:?}", e)); return o; } };
         let blocks = parts.blocks(&parts.encrypted());
         let n_mut = if exhaustive { 400 } else { 60 };
         let mut accepted_same = 0;
         for m in 0..n_mut {
             let mut f = file.clone();
-            let kind = match rng.below(12) {
+            let kind = match rng.below(14) {
+                12 | 13 => { // three steps: the file cut inside (or right after) the last data block, that block's
+                    // length word raised beyond what is left, and (mostly) a ciphertext byte altered
+                    let last_data = blocks.len().saturating_sub(2);
+                    let start = hl + 64 + blocks[..last_data].iter().map(|b| b.len()).sum::<usize>();
+                    let dlen = blocks[last_data].len().saturating_sub(36);
+                    if dlen > 0 {
+                        let keep = if rng.chance(1, 2) { dlen } else { 1 + rng.below(dlen as u64) as usize };
+                        f.truncate(start + 36 + keep);
+                        let claimed = (keep as u32).saturating_add(*rng.pick(&[1u32, 16, 36, 1000, 0x7fff_0000]));
+                        f[start + 32..start + 36].copy_from_slice(&claimed.to_le_bytes());
+                        if rng.chance(3, 4) { let i = start + 36 + rng.below(keep as u64) as usize; f[i] ^= 1 << rng.below(8); }
+                    }
+                    "cut-raise-length-and-edit" }
                 0 | 1 | 2 => { let i = rng.below(f.len() as u64) as usize; let v = rng.range(1, 255) as u8; f[i] ^= v; if i < hl { "byte-header" } else if i < hl + 64 { "byte-hash-or-hmac" } else { "byte-blocks" } }
                 3 => { let k = rng.below(f.len() as u64) as usize; f.truncate(k); "truncate" }
                 4 => { // truncate at a block boundary (with and without terminator)
@@ -531,6 +563,11 @@ fn c05(args: &Args, agg: &mut Aggregate) {
                     if *d != reference { o.violation = Some(format!("an altered file ({}) opened to DIFFERENT content", kind)); } else { accepted_same += 1; o.tags.push(format!("accepted-same:{}", kind)); }
                 }
                 Ok(Err(_)) => {}
+            }
+            // the inner-XML extraction authenticates the same bytes: from an altered file it yields the
+            // original document or nothing - never another document or a prefix of it
+            if let Ok(Ok(x)) = catch(|| Database::get_xml(&mut &f[..], base.creds.key())) {
+                if x != reference_xml { o.violation = Some(format!("get_xml of an altered file ({}) returned a DIFFERENT document ({} bytes instead of {})", kind, x.len(), reference_xml.len())); }
             }
             // correspondence on a sample of the mutants (the model is slower)
             if m % 6 == 0 {
@@ -577,7 +614,7 @@ fn c05(args: &Args, agg: &mut Aggregate) {
         o.nontrivial = true;
         o
     });
-    write_report(args, agg, "small saved databases re-framed into 1..4 HMAC blocks x 60 (quick) / 400 (thorough) alterations made without the key: single-byte substitutions anywhere (header, hash, HMAC, block HMACs, lengths, ciphertext), truncation at any offset and at block boundaries with and without the terminator, block swap/duplication/removal, header edits with the SHA-256 recomputed, appended tails, multi-byte ciphertext edits, swapped/zeroed check values, and two-step alterations (closing block removed + last data block edited; edit + appended tail); plus 2 (quick) / 8 (thorough) tag sweeps per case (an authenticated byte altered, then one byte of the matching HMAC run through all 256 values); every mutant is opened with the right key (must fail or equal the original), every sixth is also decoded by the model and compared; each case is non-trivial; distinct = distinct file shape", serde_json::json!({"mutants_per_case": if exhaustive { 400 } else { 60 }}));
+    write_report(args, agg, "small saved databases re-framed into 1..4 HMAC blocks x 60 (quick) / 400 (thorough) alterations made without the key: single-byte substitutions anywhere (header, hash, HMAC, block HMACs, lengths, ciphertext), truncation at any offset and at block boundaries with and without the terminator, block swap/duplication/removal, header edits with the SHA-256 recomputed, appended tails, multi-byte ciphertext edits, swapped/zeroed check values, and multi-step alterations (closing block removed + last data block edited; edit + appended tail; file cut inside or after the last data block + that block's length word raised beyond the remaining bytes + a ciphertext bit flipped); plus 2 (quick) / 8 (thorough) tag sweeps per case (an authenticated byte altered, then one byte of the matching HMAC run through all 256 values); every mutant is opened with the right key (must fail or equal the original) and its inner XML extracted with get_xml (must fail or return the original document), every sixth is also decoded by the model and compared; each case is non-trivial; distinct = distinct file shape", serde_json::json!({"mutants_per_case": if exhaustive { 400 } else { 60 }}));
 }
 
 // ---------------- C06: malformed input never panics ----------------
@@ -808,7 +845,73 @@ fn c06(args: &Args, agg: &mut Aggregate) {
         o.nontrivial = true;
         o
     });
-    write_report(args, agg, "streams: corpus-damage (every repository sample file of all three formats: every kind of prefix, random byte damage, extreme 32-bit length words in the first 300 bytes, random bytes, prefix plus noise; open, get_xml, get_version and open with arbitrary key-file bytes, each under catch_unwind) and kdbx4-structure (saved files rebuilt WITH the key by an independent builder after a structure-aware mutation: missing/duplicate/unknown/short/long header fields, damaged KDF dictionary, damaged inner header, truncated XML, ill-typed element text incl. short and over-range base64 time stamps, no terminator block, flipped compression flag, deep group nesting, end-field content; result class compared with the model's decrypt4), kdb-structure (generated KDB content laid out by the independent KDB writer, damaged at record level - extreme and off-by-one size words, unknown types, truncation, wrong group/entry counts, removed/duplicated/swapped records, wrong widths of fixed-width fields, level jumps - and then authenticated: content hash and encryption redone; result compared with the extracted KDB reader) and kdbx3-structure (independent KDBX 3.1 writer: truncated/ill-typed XML, extreme block size words, missing final block, empty stream, payload cut inside a block header or the stream start bytes, wrong block hash; result class compared with the extracted KDBX 3.1 reader), leaf-text (for every kind of leaf element of a saved document, once per file: its text replaced by text of the same byte length that keeps the first character and contains a multi-byte character; the file re-authenticated and opened) and keyfile-structure (XML key files with varied versions, Hash attributes of every length and shape, hex/base64/other payloads, duplicated, nested, missing and unterminated elements; used through with_keyfile + open; verdict compared with the key model fed the xml-rs events); every case is non-trivial", serde_json::json!({}));
+    // nesting depth: authenticated files whose XML nests an element thousands of levels deep.  Each case
+    // runs in a child process (an exhausted stack aborts the process, it cannot be caught), with a
+    // watchdog; the child opens the file on a thread with an 8 MiB stack, the default of a main thread.
+    run_cases(agg, args, "deep-nesting", args.n(24, 120), |i, rng, _model| {
+        let mut o = CaseOutcome::default();
+        let Some(base) = make_base(rng, false) else { o.violation = Some("save failed".into()); return o; };
+        let els = base.creds.elements();
+        let Ok(s) = strict::read(&base.bytes, &els) else { return o; };
+        const KINDS: &[&str] = &["unknown-in-meta", "unknown-in-root", "unknown-in-group", "unknown-in-entry", "unknown-in-history-entry", "unknown-in-customdata", "groups", "entry-history"];
+        let kind = KINDS[(i % KINDS.len() as u64) as usize];
+        let recursive_model = kind == "groups" || kind == "entry-history";
+        let depth: usize = if recursive_model { *rng.pick(&[100usize, 300, 100_000]) } else { *rng.pick(&[2_000usize, 6_000, 20_000, 60_000]) };
+        let nest = |open: &str, close: &str, inner: &str| -> String { let mut x = String::with_capacity((open.len() + close.len()) * depth + inner.len()); for _ in 0..depth { x.push_str(open); } x.push_str(inner); for _ in 0..depth { x.push_str(close); } x };
+        let uuid = "<UUID>AAAAAAAAAAAAAAAAAAAAAA==</UUID>";
+        let body = match kind {
+            "unknown-in-meta" => format!("<Meta><Generator>g</Generator>{}</Meta><Root><Group>{}<Name>n</Name></Group></Root>", nest("<Plugin>", "</Plugin>", "x"), uuid),
+            "unknown-in-root" => format!("<Meta></Meta><Root>{}<Group>{}<Name>n</Name></Group></Root>", nest("<X a=\"1\">", "</X>", ""), uuid),
+            "unknown-in-group" => format!("<Meta></Meta><Root><Group>{}<Name>n</Name>{}</Group></Root>", uuid, nest("<Extension>", "</Extension>", "<Leaf/>")),
+            "unknown-in-entry" => format!("<Meta></Meta><Root><Group>{}<Name>n</Name><Entry>{}{}</Entry></Group></Root>", uuid, uuid, nest("<Foo>", "</Foo>", "t")),
+            "unknown-in-history-entry" => format!("<Meta></Meta><Root><Group>{}<Name>n</Name><Entry>{}<History><Entry>{}{}</Entry></History></Entry></Group></Root>", uuid, uuid, uuid, nest("<Foo>", "</Foo>", "t")),
+            "unknown-in-customdata" => format!("<Meta><CustomData><Item><Key>k</Key><Value>v</Value>{}</Item></CustomData></Meta><Root><Group>{}<Name>n</Name></Group></Root>", nest("<Y>", "</Y>", ""), uuid),
+            "groups" => format!("<Meta></Meta><Root>{}</Root>", nest("<Group><Name>n</Name>", "</Group>", "")),
+            _ => format!("<Meta></Meta><Root><Group>{}<Name>n</Name>{}</Group></Root>", uuid, nest("<Entry><History>", "</History></Entry>", "")),
+        };
+        let x = format!("<?xml version=\"1.0\" encoding=\"utf-8\"?><KeePassFile>{}</KeePassFile>", body);
+        let mut parts = Parts::of(&base.bytes, &s, &els);
+        let ih = parts.payload.len() - s.xml.len();
+        parts.payload.truncate(ih);
+        parts.payload.extend_from_slice(x.as_bytes());
+        let file = parts.build();
+        o.input = format!("(deep-nesting {} depth {} creds {})", kind, depth, base.creds.kind);
+        o.tags.push(format!("deep:{}:{}", kind, depth));
+        let dir = "/verif/.cache/deep";
+        let _ = std::fs::create_dir_all(dir);
+        let stem = format!("{}/{}_{}_{}", dir, std::process::id(), args.seed, i);
+        let (fpath, kpath) = (format!("{}.kdbx", stem), format!("{}.key", stem));
+        std::fs::write(&fpath, &file).expect("write case file");
+        if let Some(k) = &base.creds.keyfile { std::fs::write(&kpath, k).expect("write key file"); }
+        let pw_arg = match &base.creds.password { Some(p) => format!("x{}", hex::encode(p.as_bytes())), None => "none".into() };
+        let kf_arg = if base.creds.keyfile.is_some() { kpath.clone() } else { "none".into() };
+        let exe = std::env::current_exe().expect("own path");
+        let mut child = std::process::Command::new(exe).args(["deep-child", &fpath, &pw_arg, &kf_arg]).stdout(std::process::Stdio::null()).stderr(std::process::Stdio::piped()).spawn().expect("spawn child");
+        let started = std::time::Instant::now();
+        let status = loop {
+            match child.try_wait() { Ok(Some(st)) => break Some(st), Ok(None) => {} Err(_) => break None }
+            if started.elapsed().as_secs() > 300 { let _ = child.kill(); let _ = child.wait(); break None; }
+            std::thread::sleep(std::time::Duration::from_millis(20));
+        };
+        let mut err = String::new();
+        if let Some(mut e) = child.stderr.take() { use std::io::Read; let _ = e.read_to_string(&mut err); }
+        let _ = std::fs::remove_file(&fpath);
+        let _ = std::fs::remove_file(&kpath);
+        let shallow = recursive_model && depth <= 400;
+        match status {
+            None => { o.violation = Some(format!("reading did not finish within 300 s ({} depth {})", kind, depth)); o.violation_class = Some(format!("hang:{}", kind)); }
+            Some(st) if st.code() == Some(0) => { o.tags.push("child:returned".into()); }
+            Some(st) if st.code() == Some(3) => { o.violation = Some(format!("reading panicked ({} depth {}): {}", kind, depth, err.chars().take(200).collect::<String>())); o.violation_class = Some(panic_class(&err)); }
+            Some(st) => {
+                // killed by a signal / aborted: the stack was exhausted
+                o.violation = Some(format!("reading aborted the process ({} depth {}; status {:?}): {}", kind, depth, st, err.lines().last().unwrap_or("").chars().take(160).collect::<String>()));
+                o.violation_class = Some(if recursive_model && !shallow { "deep-object-nesting".into() } else { format!("abort:{}", kind) });
+            }
+        }
+        o.nontrivial = true;
+        o
+    });
+    write_report(args, agg, "streams: corpus-damage (every repository sample file of all three formats: every kind of prefix, random byte damage, extreme 32-bit length words in the first 300 bytes, random bytes, prefix plus noise; open, get_xml, get_version and open with arbitrary key-file bytes, each under catch_unwind) and kdbx4-structure (saved files rebuilt WITH the key by an independent builder after a structure-aware mutation: missing/duplicate/unknown/short/long header fields, damaged KDF dictionary, damaged inner header, truncated XML, ill-typed element text incl. short and over-range base64 time stamps, no terminator block, flipped compression flag, deep group nesting, end-field content; result class compared with the model's decrypt4), kdb-structure (generated KDB content laid out by the independent KDB writer, damaged at record level - extreme and off-by-one size words, unknown types, truncation, wrong group/entry counts, removed/duplicated/swapped records, wrong widths of fixed-width fields, level jumps - and then authenticated: content hash and encryption redone; result compared with the extracted KDB reader) and kdbx3-structure (independent KDBX 3.1 writer: truncated/ill-typed XML, extreme block size words, missing final block, empty stream, payload cut inside a block header or the stream start bytes, wrong block hash; result class compared with the extracted KDBX 3.1 reader), leaf-text (for every kind of leaf element of a saved document, once per file: its text replaced by text of the same byte length that keeps the first character and contains a multi-byte character; the file re-authenticated and opened) and keyfile-structure (XML key files with varied versions, Hash attributes of every length and shape, hex/base64/other payloads, duplicated, nested, missing and unterminated elements; used through with_keyfile + open; verdict compared with the key model fed the xml-rs events) and deep-nesting (authenticated files whose XML nests an unknown element 2 000..60 000 levels deep under Meta, Root, Group, Entry, a history entry or a custom-data item, or nests Group elements / Entry-History pairs 100, 300 and 100 000 levels deep; each is opened and its XML extracted in a child process on an 8 MiB stack with a 300 s watchdog, and the exit status is the observation - the stack does not exist in the model); every case is non-trivial", serde_json::json!({}));
 }
 
 /// class of a panic message, for matching the known findings by site
@@ -944,4 +1047,19 @@ fn c20(args: &Args, agg: &mut Aggregate) {
         o
     });
     write_report(args, agg, "streams: credentials (passwords absent/empty/ASCII/non-ASCII/with NUL x key files absent / 32 raw bytes / 0..200 arbitrary bytes / XML v1 with 32-byte and other payloads / XML v2 with spaces, CR/LF, TABs and either hex case / XML without key data / XML-like garbage; the saved file must verify under the independently derived composite key, open with the same credentials however the key file is laid out or delivered, not open with the password alone, and a file built by an independent writer under the same credentials must open), kdb-credentials (KeePass 1 files built by the independent writer: a lone 32-byte element is used as it is, several elements are hashed together, a lone element of another length is not a key) and fixtures; non-trivial = a key file is involved", serde_json::json!({}));
+}
+
+/// child of the deep-nesting stream: `kpverif deep-child <file> <x-hex-password|none> <key-file|none>`.
+/// Exit status 0 = open and get_xml returned a value or an error, 3 = one of them panicked; a stack
+/// overflow aborts the process, which the parent sees as death by signal.
+pub fn deep_child(argv: &[String]) {
+    let file = std::fs::read(&argv[2]).expect("case file");
+    let pw: Option<String> = if argv[3] == "none" { None } else { Some(String::from_utf8(hex::decode(&argv[3][1..]).unwrap()).unwrap()) };
+    let kf: Option<Vec<u8>> = if argv[4] == "none" { None } else { Some(std::fs::read(&argv[4]).expect("key file")) };
+    let t = std::thread::Builder::new().stack_size(8 << 20).spawn(move || {
+        let r1 = catch(|| Database::open(&mut &file[..], make_key(pw.as_deref(), kf.as_deref())).map(|_| ()).is_ok());
+        let r2 = catch(|| Database::get_xml(&mut &file[..], make_key(pw.as_deref(), kf.as_deref())).is_ok());
+        match (r1, r2) { (Ok(_), Ok(_)) => 0, (Err(p), _) | (_, Err(p)) => { eprintln!("panic: {}", p); 3 } }
+    }).expect("thread");
+    std::process::exit(t.join().unwrap_or(3));
 }
